@@ -313,6 +313,16 @@ def step (line : String) : String :=
       let et := (j.getObjValAs? Bool "emit_types").toOption.getD false
       let st := (j.getObjValAs? Bool "emit_separating_tab").toOption.getD true
       (resJson (ToDocstring.toDocstring ir emit level et st) fun t => Json.str (String.ofList t)).compress
+    | .ok "func_doc_rt" =>
+      let ir := match j.getObjVal? "ir" with | .ok i => irOfJson i | _ => {}
+      let emit := (j.getObjValAs? Bool "emit").toOption.getD true
+      let level := (j.getObjValAs? Nat "indent_level").toOption.getD 2
+      let et := (j.getObjValAs? Bool "emit_types").toOption.getD false
+      let st := (j.getObjValAs? Bool "emit_separating_tab").toOption.getD true
+      (resJson (FuncDoc.funcDocRT ir emit level et st) irToJson).compress
+    | .ok "cleandoc" =>
+      let t := (optStr j "text").getD []
+      (resJson (FuncDoc.cleandoc t) fun x => Json.str (String.ofList x)).compress
     | .ok "unwrap" =>
       -- what `_set_name_and_type` (word_wrap on) reads back from wrapped, indented prose
       let t := (optStr j "text").getD []
